@@ -27,6 +27,7 @@ def main():
     (CACHE / "parser_ir.json").write_text(json.dumps(ir))
     emit_lean.emit_parser_ir(ir)
     emit_lean.emit_tables(ir)
+    emit_lean.emit_witness(ir)
     from harness.translate import regexes
 
     try:
